@@ -37,7 +37,9 @@ def matrix_cases(rnd, reps):
                     else: prog.append(["const", d, ["int", ins[slot]]])
                     return d
                 a = operand(ka, 0); b = operand(kb, 1)
-                prog.append(["bin", new(), op, a, b])
+                prog.append(["bin", new(), op, a, b] + (["i"] if rnd.random() < 0.25 else []))
+                if rnd.random() < 0.3:          # the operands are used again afterwards: an operator must not have changed them
+                    prog.append(["bin", new(), rnd.choice(["add", "mul", "sub"]), a, b])
                 out.append(dict(cfg=dict(p=rnd.choice([progs.BN, progs.BN, progs.BLS, 65537]), n=n, res=2, ign=0), prog=prog, ins=ins))
     return out
 
@@ -128,7 +130,8 @@ def oracle(case, rec, group):
 
 def run(tier, seed):
     import random
-    pending = matrix_cases(random.Random(seed * 7919 + 5), 6 if tier == "quick" else 30)
+    import matrixcases
+    pending = matrix_cases(random.Random(seed * 7919 + 5), 6 if tier == "quick" else 30) + matrixcases.bigdiv_cases()
     gen = [None]
     def casegen(rnd):
         if pending: return pending.pop()
